@@ -9,7 +9,8 @@ TRANSLATORS = ["unicode_tables", "tables"]
 RULE = ("grammar-generated histories (10-40 ops: inbound lines of every handler kind for 1-4 nodes, malformed stream, "
         "set_child_value / update_fw calls, pumps) over 5 versions x threaded/asyncio x plain/MQTT transport, replayed on the "
         "real gateway and on the extracted model; non-trivial = distinct history in which at least one line was accepted "
-        "and at least one was rejected")
+        "and at least one was rejected.  Plus 8 two-thread scenarios (a controller call in one thread, the pump handling a "
+        "queued line in another): every interleaving at source-line granularity up to 1 (quick) / 2 (thorough) preemptions")
 ASSUMPTIONS = ["a dying poll thread is represented by an exception escaping Tasks.run_job / transport.send",
                "float(), awesomeversion are oracles fed with the library's real verdicts"]
 THEOREMS_DOC = {
@@ -30,6 +31,7 @@ def run(ctx, res):
              + scenarios.directed_cases(ctx, "c01s", ctx.budget(120, 2500), scenarios.sleep_history, scenarios.SLEEP_VERSIONS)
              + scenarios.directed_cases(ctx, "c01o", ctx.budget(80, 1500), scenarios.ota_history, VERSIONS)
              + gwcheck.gen_cases(ctx, "c01", ctx.budget(200, 4000), mqtt_rate=0.25))
+    run_ctl_races(ctx, res)
     recs = gwcheck.run_cases(ctx, res, cases, ["c01"], SCOPE, "c01")
     for r in recs:
         st = r["stats"]
@@ -55,7 +57,59 @@ def run(ctx, res):
         res.sample({"cfg": r["case"]["cfg"], "ops": r["case"]["ops"][:8], "n_ops": len(r["case"]["ops"])})
 
 
+def _race_task(task):
+    import logging
+    logging.disable(logging.CRITICAL)
+    from harness.impl import ctlrace, sched
+    i, bound, limit = task
+    sc = ctlrace.SCENARIOS[i]
+    n, calls_ok, bad = 0, 0, None
+    try:
+        for choices, trace, o in ctlrace.explore(sc, bound, limit=limit):
+            n += 1
+            calls_ok += o["call"] is None
+            if o["pump"] and bad is None:
+                bad = (choices, o)
+    except sched.HarnessError as exc:
+        return i, n, calls_ok, None, f"HarnessError: {exc}"
+    return i, n, calls_ok, bad, None
+
+
+def run_ctl_races(ctx, res):
+    """Controller call in one thread, the pump handling a line in another: every interleaving at source-line
+    granularity up to the tier's preemption bound (harness/impl/ctlrace.py)."""
+    from concurrent.futures import ProcessPoolExecutor
+    from harness.impl import ctlrace
+    bound = 1 if ctx.tier == "quick" else 2
+    limit = None if ctx.tier == "quick" else 6000 * ctx.scale
+    tasks = [(i, bound, limit) for i in range(len(ctlrace.SCENARIOS))]
+    total = 0
+    with ProcessPoolExecutor(min(8, len(tasks))) as ex:
+        for i, n, calls_ok, bad, herr in ex.map(_race_task, tasks):
+            name = ctlrace.SCENARIOS[i][0]
+            total += n
+            res.evaluations += n
+            res.count("ctl-race:" + name, n)
+            if n and calls_ok:
+                res.nontriv(("ctl-race", name))
+            if herr:
+                res.violate("ctl-race/harness", f"{name}: {herr}", {"kind": "ctl-race", "scenario": i}, kind="harness",
+                            found_input=False)
+            if bad:
+                choices, o = bad
+                res.violate("pump-raises/concurrent-controller-call",
+                            f"{name}: the poll thread raised {o['pump']} while the controller call "
+                            f"{ctlrace.SCENARIOS[i][3]!r} ran concurrently (it returned normally: {o['call'] is None})",
+                            {"kind": "ctl-race", "scenario": i, "name": name, "choices": choices})
+    res.extra.setdefault("schedules_explored", {})["controller_call_vs_pump_line_level_bound_%d" % bound] = total
+
+
 def replay(ctx, case):
+    c0 = case["case"] if "case" in case else case
+    if c0.get("kind") == "ctl-race":
+        from harness.impl import ctlrace
+        choices, trace, o = ctlrace.replay(ctlrace.SCENARIOS[c0["scenario"]], c0["choices"])
+        return {"scenario": c0.get("name"), "observation": o, "violates": bool(o["pump"])}
     out = gwcheck.replay_case(ctx, case)
     c = case["case"] if "case" in case else case
     if ctx.model is not None:
